@@ -32,7 +32,8 @@ type World struct {
 
 	allFuncs  []*ssa.Function // every function with a body, closures included
 	declOf    map[*types.Func]*ast.FuncDecl
-	callersOf map[*ssa.Function][]*ssa.CallInstruction // lazily built static call index
+	callersOf map[*ssa.Function][]*ssa.CallInstruction
+	callerIdx map[*ssa.Function][]ssa.CallInstruction // lazily built static call index
 	Tags      string
 }
 
@@ -313,4 +314,24 @@ func (w *World) fileOf(p token.Pos) string {
 		return ""
 	}
 	return strings.TrimPrefix(w.Fset.Position(p).Filename, w.RepoDir+"/")
+}
+
+// Callers returns the static call sites of fn in the repository.
+func (w *World) Callers(fn *ssa.Function) []ssa.CallInstruction {
+	if w.callersOf == nil {
+		w.callersOf = map[*ssa.Function][]*ssa.CallInstruction{}
+		w.callerIdx = map[*ssa.Function][]ssa.CallInstruction{}
+		for _, f := range w.allFuncs {
+			for _, b := range f.Blocks {
+				for _, in := range b.Instrs {
+					if ci, ok := in.(ssa.CallInstruction); ok {
+						if callee := ci.Common().StaticCallee(); callee != nil {
+							w.callerIdx[callee] = append(w.callerIdx[callee], ci)
+						}
+					}
+				}
+			}
+		}
+	}
+	return w.callerIdx[fn]
 }
